@@ -21,8 +21,8 @@ import serial_common as sc
 
 def run(ck):
     harness, model = sc.build()
-    res = vv.prove("Properties_C12", set())
-    ck.add_proof(res)
+    ck.add_proof(vv.prove("Properties_C12", set()))
+    ck.add_proof(vv.prove("Refuted_C12", set()))
     ck.trusted += sc.TRUSTED
     ck.assumptions += [sc.ASSUMPTIONS[1],
                        "no hypothesis on the floating-point oracles: the theorems hold for every read_f"]
